@@ -1,6 +1,6 @@
 """C03 — a read at R is exactly the MVCC snapshot at R: theorems KB.Props.C03, `backend` suite on every engine."""
 from .. import core, hist
-from ..gen import KEY_POOL, hx, rng_for
+from ..gen import KEY_POOL, hx, rng_for, PREFIX
 
 ENGINES = ["memkv", "badger", "tikv", "metrics-badger"]
 # range bounds of the form key+\x00: order facts (C10) lifted to the range read
@@ -123,6 +123,47 @@ def tombstone_witness(engine):
     return core.Case("backend", lines, {"engine": engine, "witness": "tombstone"})
 
 
+def count_race_case(seed, i, engine):
+    """a count (and a limited / unlimited list) PARKED inside its scan while a write in the counted range completes and becomes
+    readable: whatever revision the answer names in its header, the number (the keys) it carries is the snapshot AT that
+    revision. Implementation only (the scheduling model has no parked count); judged by the MVCC replay."""
+    r = rng_for(seed, "c03cr/%d" % i)
+    keys = sorted(r.sample([k for k in KEY_POOL if b"events" not in k], r.randint(3, 5)))
+    lines = [hist.cfg_line(engine)]
+    for k in keys[:-1]:
+        lines += ["create %s %s" % (hx(k), hx(b"v")), "settle"]
+    a, b = hx(PREFIX + b"/"), hx(PREFIX + b"0")
+    op = ["count %s %s" % (a, b), "list %s %s 0 0" % (a, b), "list %s %s 0 2" % (a, b)][i % 3]
+    lines += ["gated 1", "start c1 " + op]
+    for _ in range(r.randint(0, 2)):
+        lines.append("step c1")                     # somewhere inside the read: compaction-record look, partitions, iterator
+    lines += ["create %s %s" % (hx(keys[-1]), hx(b"late")), "settle", "delete %s 0" % hx(keys[0]), "settle"]
+    lines += ["step c1"] * 8
+    return core.ImplOnlyCase("backend", lines, {"engine": engine, "count_race": True}, timeout=60)
+
+
+def count_race_oracle(case):
+    ref = hist.Ref()
+    for i, (line, out) in enumerate(zip(case.lines, case.impl)):
+        t, o = line.split(), out.split()
+        ref.feed(line, out)
+        if o[:2] == ["done", "c1"] and len(o) >= 5 and o[3] != "err":
+            hdr = int(o[3])
+            want = ref.range(PREFIX + b"/", PREFIX + b"0", hdr)
+            if o[2] == "count":
+                if int(o[4]) != len(want):
+                    return ("line %d: a count racing two writes answered %s keys at revision %d; the snapshot at %d holds %d: %s"
+                            % (i + 1, o[4], hdr, hdr, len(want), want), "range-count-not-at-header-revision")
+            elif o[2] == "list" and len(o) >= 6:
+                got = [] if o[5] == "-" else hist.parse_kvs(o[5])
+                lim = int(case.lines[[j for j, l in enumerate(case.lines) if l.startswith("start c1")][0]].split()[-1])
+                exp = want[:lim] if lim else want
+                if sorted(got) != sorted(exp):
+                    return ("line %d: a range read racing two writes answered %s at revision %d; the snapshot at %d is %s"
+                            % (i + 1, got, hdr, hdr, exp), "snapshot-mismatch")
+    return None
+
+
 def check(rep, tier, seed):
     n_hist, n_ops = (48, 60) if tier == "quick" else (1600, 120)
     # the deterministic bound / empty-value scripts first (cheap and telling): the run stops at the first violation they
@@ -176,8 +217,10 @@ def check(rep, tier, seed):
         r = rng_for(seed, "c03s/%d" % i)
         cases.append(sched.gen_schedule(r, 4, r.sample(KEY_POOL[:8], 2), ENGINES[i % 3]))
     cases += [iterfault_case(seed, i, (ENGINES + ["metrics-memkv"])[i % 5]) for i in range(10 if tier == "quick" else 90)]
+    cases += [count_race_case(seed, i, ENGINES[i % 3]) for i in range(9 if tier == "quick" else 180)]
     core.run_cases(cases)
-    if core.judge(rep, "C03", cases, hist.check_reads, shrink_fn=lambda x: hist.check_reads(x) is not None):
+    pick = lambda c: count_race_oracle(c) if c.meta.get("count_race") else hist.check_reads(c)
+    if core.judge(rep, "C03", cases, pick, shrink_fn=lambda x: not x.meta.get("count_race") and hist.check_reads(x) is not None):
         return
     rep.assumptions += ["reads at revisions the node has reported readable (<= committed) and >= compaction floor",
                         "through the etcd endpoint (suite `etcd`, scripts and oracle of C16): paginated lists, counts and point reads at "
